@@ -434,6 +434,20 @@ pub fn inject_site<'a>(module: &mut Module<'a>, func: u32, api: Api, site: &Site
     };
     let is_func_mode = matches!(site.mode, Mode::FuncEntry | Mode::FuncExit);
     let is_empty_mode = matches!(site.mode, Mode::EmptyAlternate | Mode::EmptyBlockAlt);
+    if site.clear {
+        let mode = imode(site.mode).expect("harness: clear of a mode without a list");
+        match api {
+            Api::Modifier | Api::ModifierInjectAt => {
+                let mut fm = module.functions.get_fn_modifier(FunctionID(func)).expect("harness: not a local function");
+                fm.clear_instr_at(loc, mode);
+            }
+            _ => {
+                let mut it = ModuleIterator::new(module, &vec![]);
+                it.clear_instr_at(loc, mode);
+            }
+        }
+        return;
+    }
     match api {
         Api::IterCursor | Api::IterAt | Api::IterInjectAt => {
             let mut it = ModuleIterator::new(module, &vec![]);
